@@ -28,3 +28,4 @@ def rules(ctx):
     S.c06_r4_rebuild(ctx)
     S.c06_r2_handover(ctx)
     S.refcount_rules(ctx)
+    S.loop_completeness_rules(ctx)
